@@ -75,9 +75,14 @@ CHECKS = {
   "Every recorded infix block is judged by a declarative TLA+ definition of the documented precedence table on six counts: the tokens the reader delivered, the tree of (infixExpand {..}) including nested blocks, the infix-free prefix program (checked to be the predicted form), and the value, the (tr x) effects and the final state of both. Blocks are exhaustive for <=3 (thorough <=4) operators over every operator in two spacings, plus statement lists, if/else, for headers, indexing/slicing/fields and seeded random long programs. TLC separately checks that the definition, ValidTree (with uniqueness) and a transcription of the pratt.go algorithm agree on every token list up to the bound, and refutes the pinned deviations.",
   "and/or taken as one right-assoc level; range-for, prefix *, [-literals at statement start, mid-expression ++ and asymmetric spacing around + - are outside the generated domain; errors compared as errors only; verdicts come only from recorded executions judged by the declarative definition",
   "TLA+ spec (Pratt); TLC agreement/uniqueness audit + TLC trace validation of recorded translations and evaluations"),
+ "C10": ("GoInterop", "translation_validation",
+  "Every record graph the harness builds on the real interpreter - per-field palettes, wrong kinds and undeclared keys at every position, every pair/triple of reference positions sharing a record, cycles, seeded random graphs - is converted with togo and through identity Go methods; TLC computes the required Go value (Fill) from the graph alone and compares it with the reflection dump (object identities included) and the record handed back (MatchStruct); the spec itself is model-checked for NoLoss / OneObject / UnknownKey / WrongKind over all records with <= 2 fields and a sharing pool.",
+  "finite palettes; nil/symbol into basic fields, integral floats into integer fields, unsigned fields and sharing among returned records are not judged; cyclic graphs are converted in child processes; two open known findings (fields dropped on the way back; cyclic Go values on the way back)",
+  "TLA+ functional spec over a Go type algebra (GoInterop); TLC exploration + TLC trace validation of recorded conversions; named deviations"),
 }
 
 ENGINES = [
+ {"name": "GoInterop", "path": "spec/GoInterop.tla spec/MCGoInterop.tla spec/GoInteropTrace.tla", "serves_properties": ["C10"], "kind_free_text": "TLA+ functional spec over a Go type algebra + trace specification, TLC"},
  {"name": "Pratt", "path": "spec/Pratt.tla spec/MCPratt.tla spec/MCPrattForms.tla spec/PrattTrace.tla", "serves_properties": ["C06"], "kind_free_text": "TLA+ declarative grammar + algorithm model + trace specification, TLC"},
  {"name": "CrashTrace", "path": "spec/CrashTrace.tla", "serves_properties": ["C01"], "kind_free_text": "TLA+ trace specification of the entry-point outcome machine, TLC"},
  {"name": "Codec", "path": "spec/Decimal.tla spec/Codec.tla spec/CodecTrace.tla spec/MCCodec.tla", "serves_properties": ["C11"], "kind_free_text": "TLA+ functional spec + audit + trace specification, TLC"},
